@@ -1,5 +1,11 @@
 (* driver for the C11 (zero swaps) correspondence runner.
-   request:  swap <quantis> <ens0> <ens1> <beta0> <beta1> <old0> <old1> <streams> <draws> <energies> <E>
+   request:  swap  <quantis> <ens0> <ens1> <beta0> <beta1> <old0> <old1> <streams> <draws> <energies> <E>
+             swap0 <same arguments>
+     swap  = select_swap = select_swap_g true true: the code (each new path sized and measured by its own
+             ensemble's length limit);  swap0 = select_swap_g false false: the code before
+             proposed_fixes/C11_zero_swap_own_limits.diff (retis: backward container sized with the [0+]
+             limit; quantis: the [0-] limit read for both paths), used by the lock-step only when the tree
+             under test is found to be that variant
      ens     = i0,i1,i2,scL,scR,move,maxlen,cap,accept_all     (i0 = ninf for -inf, cap = N for absent)
      old     = frames|maxlen|t0|status|weight                  frames = o:t:r,o:t:r,... or -
      streams = stream;stream;...  (stream = frames, _ = empty stream) or -
@@ -70,7 +76,8 @@ let dumpf lab t =
 
 let handle toks =
   match toks with
-  | ["swap"; quantis; e0; e1; b0; b1; o0; o1; st; dr; en; ev] ->
+  | [("swap" | "swap0") as cmd; quantis; e0; e1; b0; b1; o0; o1; st; dr; en; ev] ->
+    let fixed = (cmd = "swap") in
     let (e0, ninf0) = ens_of_string e0 and (e1, ninf1) = ens_of_string e1 in
     let old0 = spath_of_string o0 and old1 = spath_of_string o1 in
     let streams = streams_of_string st in
@@ -84,7 +91,7 @@ let handle toks =
     let evalue = q_of_string ev in
     let seen = ref None in
     let expf x = seen := Some x; evalue in
-    (match select_swap dumpf vpot_of expf (bool_of_string_ quantis) e0 e1 (q_of_string b0) (q_of_string b1)
+    (match select_swap_g dumpf vpot_of expf fixed fixed (bool_of_string_ quantis) e0 e1 (q_of_string b0) (q_of_string b1)
              old0 old1 streams draws with
      | OErr ERaise -> "ERR raise"
      | OErr EExhausted -> "ERR exhausted"
